@@ -29,6 +29,7 @@ type exec_ struct {
 	srv       *server
 	listeners map[string]*listener
 	seen      map[string]any // the JSON reply of every named http step (for @JSON:<step>:<field>@)
+	seenMu    sync.Mutex     // (the requests of a burst run concurrently)
 }
 
 const aliveDelay = 30 * time.Millisecond
@@ -65,7 +66,10 @@ func (x *exec_) expand(s string, now int64) string {
 	})
 	s = jsonMacro.ReplaceAllStringFunc(s, func(m string) string {
 		g := jsonMacro.FindStringSubmatch(m)
-		if doc, ok := x.seen[g[1]].(map[string]any); ok {
+		x.seenMu.Lock()
+		d := x.seen[g[1]]
+		x.seenMu.Unlock()
+		if doc, ok := d.(map[string]any); ok {
 			if v, ok := doc[g[2]].(string); ok {
 				return url.QueryEscape(v)
 			}
@@ -276,10 +280,12 @@ func (x *exec_) httpOnce(o *stepObs, st *step, now int64) {
 	o.Body = truncate(data, 4000)
 	o.JSON = normaliseDoc(data)
 	if st.Name != "" {
+		x.seenMu.Lock()
 		if x.seen == nil {
 			x.seen = map[string]any{}
 		}
 		x.seen[st.Name] = o.JSON
+		x.seenMu.Unlock()
 	}
 }
 
